@@ -499,3 +499,15 @@ pub fn for_each_seq(n: usize, k: usize, first: usize, f: &mut dyn FnMut(&[usize]
 pub fn seq_count(n: u64, k: u32) -> u64 {
     (1..=k).map(|l| n.pow(l)).sum()
 }
+
+/// Make a child process die with this one (Linux: parent-death signal), so that a check stopped by its wall
+/// budget, or killed from outside, never leaves a spinning child behind.
+pub fn die_with_parent(cmd: &mut std::process::Command) -> &mut std::process::Command {
+    use std::os::unix::process::CommandExt;
+    unsafe {
+        cmd.pre_exec(|| {
+            libc::prctl(libc::PR_SET_PDEATHSIG, libc::SIGKILL);
+            Ok(())
+        })
+    }
+}
